@@ -53,10 +53,27 @@ func verifH_C13_flusher() {
 				return err
 			},
 			apply: func(db *verifDB) {}}
+	case 6:
+		// a join: the second table is fetched long after the statement took the lock
+		t, u := db.tables[0], db.tables[len(db.tables)-1]
+		stmt = verifStmt{kind: "join", table: t.name,
+			run: func(rm RelationManager) error {
+				_, _, err := EvaluateSelect(sql.Select{
+					SelectList: sql.SelectList{{ValueExpressionPrimary: sql.Asterisk{}}},
+					TableExpression: sql.TableExpression{FromClause: sql.FromClause{sql.QualifiedJoin{
+						LHS: sql.TableName{Name: t.name, CorrelationName: "l"}, JoinType: sql.INNER_JOIN, RHS: sql.TableName{Name: u.name, CorrelationName: "r"},
+						JoinCondition: sql.Predicate{ComparisonPredicate: sql.ComparisonPredicate{LHS: sql.ColumnReference{Qualifier: "l", ColumnName: "a"}, CompOp: sql.EQ, RHS: sql.ColumnReference{Qualifier: "r", ColumnName: "a"}}}}}},
+				}, rm)
+				return err
+			},
+			apply: func(db *verifDB) {}}
 	default:
 		stmt = verifStmtOfKind(db, "s", 1, kind)
 	}
 	verifTag("stmt", stmt.kind)
+	// callticks=1: the timer may also fire at the entry of every relation service
+	// call the statement makes (not only where pages change or the log is written)
+	callTicks := verifParam("callticks", 0) == 1
 
 	inStatement, dirtied, logDone := false, false, false
 	ticks := 0
@@ -82,8 +99,10 @@ func verifH_C13_flusher() {
 				logDone = true
 			}
 		}
-		// the timer may fire here (only the session goroutine is preempted)
-		if g == 0 && inStatement && ticks < preempts && ev != "page.write" && ev != "header.write" {
+		// the timer may fire here (only the session goroutine is preempted); with
+		// callticks=1 also at the entry of every relation service call of the statement
+		isCall := len(ev) > 3 && ev[:3] == "rs."
+		if g == 0 && inStatement && ticks < preempts && ev != "page.write" && ev != "header.write" && (callTicks || !isCall) {
 			if verifChoice("tick-here", 2) == 1 {
 				ticks++
 				verifTag("tick-at", ev)
@@ -95,18 +114,23 @@ func verifH_C13_flusher() {
 	// state shared with the flusher: it must happen under the store's lock
 	// (shared for the session, exclusive for the flusher)
 	const st = "(*github.com/mk6i/mkdb/storage."
+	const sv = st + "RelationService)."
 	verifWatchCalls([]string{
 		st + "LRUCache).get", st + "LRUCache).set",
 		st + "fileStore).fetch", st + "fileStore).append", st + "fileStore).update", st + "fileStore).setCache",
 		st + "fileStore).incrLSN", st + "fileStore).incrementLastKey", st + "fileStore).setPageTableRoot", st + "fileStore).save",
+		sv + "Fetch", sv + "Insert", sv + "Update", sv + "MarkDeleted", sv + "FlushWALBatch", sv + "EndTxn", sv + "CreateTable",
 	}, func(fn string) {
 		if !inStatement {
 			return
 		}
-		if verifGoroutine() == 0 {
-			verifAssert(verifLockHeld(lock) >= 1, "session-touches-cache-under-the-lock")
-		} else {
-			verifAssert(verifLockHeld(lock) == 2, "flusher-holds-the-lock-exclusively")
+		isService := len(fn) > len(sv) && fn[:len(sv)] == sv
+		if !isService {
+			if verifGoroutine() == 0 {
+				verifAssert(verifLockHeld(lock) >= 1, "session-touches-cache-under-the-lock")
+			} else {
+				verifAssert(verifLockHeld(lock) == 2, "flusher-holds-the-lock-exclusively")
+			}
 		}
 	})
 	inStatement = true
